@@ -182,6 +182,14 @@ class PathEval:
     def dom_input(self, vn):
         return RF(p_var(vn))
 
+    def dom_indeterminate(self, why):
+        """value of an undef / NaN operand: a fresh symbol that no identity can absorb (a result that depends on it is reported by the
+        comparison of the outputs; a result that does not is unaffected)"""
+        self.n_indet = getattr(self, "n_indet", 0) + 1
+        self.indeterminate = getattr(self, "indeterminate", [])
+        self.indeterminate.append(why)
+        return RF(p_var("UNINITIALISED_%d" % self.n_indet))
+
     def dom_check(self, r):
         if len(r.n) > 6000:
             raise Unsupported("polynomial too large")
@@ -199,7 +207,11 @@ class PathEval:
     def dom_key(self, x, y):
         """canonical key of the undecided comparison x < y (None: do not share)"""
         d = (x - y).normal(self.cons)
-        return "lt|%r|%r" % (sorted(d.n.items()), sorted(d.d.items()))
+        key = "lt|%r|%r" % (sorted(d.n.items()), sorted(d.d.items()))
+        if not hasattr(self, "key_show"):
+            self.key_show = {}
+        self.key_show[key] = "(%s%s < 0)" % (p_show(d.n, 4), "" if p_is_const(d.d) else " / ...")
+        return key
 
     def dom_call(self, name, args):
         """value of a call of a pure libm function / intrinsic, or raise Unsupported"""
@@ -288,7 +300,10 @@ class PathEval:
                         m = re.match(r"^br label (\S+)$", ins.text.strip())
                         nxt = m.group(1)
                 elif op == "ret":
-                    return {"stores": stores, "conds": conds}
+                    # decisions taken by selects / integer conversions of comparisons do not show up as branches: list them too
+                    shown = {c for c, _ in conds}
+                    extra = [(getattr(self, "key_show", {}).get(k, str(k))[:80], v) for k, v in dec.items() if k not in shown]
+                    return {"stores": stores, "conds": conds + [e for e in extra if not conds or len(conds) < 4]}
                 elif op in ("switch", "invoke", "unreachable", "indirectbr"):
                     raise Unsupported("terminator " + op)
                 elif op == "call" and ("llvm.memset" in ins.text or "llvm.memcpy" in ins.text):
@@ -385,7 +400,17 @@ class PathEval:
                     if key is not None:
                         if key in dec:
                             return dec[key] != neg
+                        # x < y is false on a path on which y < x was decided true (one total order per path)
+                        rkey = self.dom_key(y, x)
+                        if rkey is not None and dec.get(rkey) is True:
+                            return False != neg
                         raise _NeedDecision(key)
+                if pred in ("eq", "ne"):
+                    k1, k2 = self.dom_key(a, b), self.dom_key(b, a)
+                    if k1 is not None and (dec.get(k1) is True or dec.get(k2) is True):
+                        return pred == "ne"
+                    if k1 is not None and dec.get(k1) is False and dec.get(k2) is False:
+                        return pred == "eq"
         raise _NeedDecision(c)
 
     def _value(self, v, vals, depth=0):
@@ -398,9 +423,11 @@ class PathEval:
             return r
         c = ir.parse_const(v)
         if c is not None:
+            if isinstance(c, float) and (c != c or c in (float("inf"), float("-inf"))):
+                return self.dom_indeterminate("the constant %s (folded from an uninitialised or invalid operand)" % ("NaN" if c != c else "inf"))
             return self.dom_const(Fraction(c))
         if v in ("undef", "poison"):
-            raise Unsupported("undef value")
+            return self.dom_indeterminate("an undef value (read of uninitialised storage)")
         if depth > 3000:
             raise Unsupported("expression too deep")
         ins = self.f.defs.get(v)
@@ -441,6 +468,20 @@ class PathEval:
             cnd = parts[0].split()[-1]
             c = self._cond(cnd, vals, self._dec_proxy)
             r = self._value(parts[1].split()[-1] if c else parts[2].split()[-1], vals, depth + 1)
+        elif op in ("zext", "sext") and re.match(r"^[sz]ext i1 (\S+) to i\d+$", t.strip()):
+            c = self._cond(re.match(r"^[sz]ext i1 (\S+) to", t.strip()).group(1), vals, self._dec_proxy)
+            r = self.dom_const(Fraction((1 if op == "zext" else -1) if c else 0))
+        elif op in ("add", "sub", "mul") and re.match(r"^(?:add|sub|mul) (?:nsw |nuw )*i(?:8|16|32|64) ", t.strip()):
+            # small integers built from comparison results (branch-free sign idioms); exact in the rationals as long as nothing wraps
+            body = re.sub(r"^\w+ (?:nsw |nuw )*i\d+ ", "", t.strip())
+            a, b = [x.strip() for x in body.split(",")[:2]]
+            x, y = self._value(a, vals, depth + 1), self._value(b, vals, depth + 1)
+            r = {"add": lambda: x + y, "sub": lambda: x - y, "mul": lambda: x * y}[op]()
+        elif op in ("sitofp", "uitofp"):
+            m = re.match(r"^[su]itofp i\d+ (\S+) to (?:double|float)$", t.strip())
+            if not m:
+                raise Unsupported("instruction " + t[:60])
+            r = self._value(m.group(1), vals, depth + 1)
         elif op == "fptrunc":
             raise Narrowing(t.strip())
         elif op == "fpext":
